@@ -103,13 +103,23 @@ pub fn graph_to_paths(graph: &Graph) -> Vec<NodePath> {
 /// A note is included when a block reference to it stands directly under a heading, or at the
 /// top of a note without headings that is itself included.  A reference inside a quote or a
 /// list item leads to no heading, so its target still starts its own paths.
+/// a section whose chain of parents is sections up to the note itself (not a heading inside a
+/// list item or a block quote, which ends no path)
+fn heads_a_path<'a>(section: impl NodePointer<'a>) -> bool {
+    match section.to_parent() {
+        Some(parent) if parent.is_document() => true,
+        Some(parent) if parent.is_section() => heads_a_path(parent),
+        _ => false,
+    }
+}
+
 fn is_included(graph: &Graph, key: &Key, seen: &mut HashSet<Key>) -> bool {
     if !seen.insert(key.clone()) {
         return true;
     }
     graph.get_block_references_to(key).iter().any(|id| {
         match graph.node(*id).to_parent() {
-            Some(parent) if parent.is_section() && !parent.is_in_list() => true,
+            Some(parent) if parent.is_section() => heads_a_path(parent),
             Some(parent) if parent.is_document() => parent
                 .document_key()
                 .map_or(false, |parent_key| is_included(graph, &parent_key, seen)),
